@@ -400,7 +400,7 @@ def _midrun(k, action, interactive):
         return rt.ok()
 
 
-PURGERS = ['empty', 'empty-days', 'rm-star', 'empty-f']
+PURGERS = ['empty', 'empty-days', 'rm-star', 'empty-f', 'empty-all-users']
 
 
 def _stale(k, action, cmd):
@@ -411,18 +411,20 @@ def _stale(k, action, cmd):
     did examine /w/.Trash after the change, it must not purge there at all"""
     with rt.untraced():
         nodes = [W.d('/h'), W.d('/v/d'), W.d('/w/d'), W.d('/v/.Trash', 0o1777), W.d('/w/.Trash', 0o1777), W.f('/v/keep', 'KEEP', 0o644, 800)]
-        for td, pv in (('/h/.local/share/Trash', '/h/w/'), ('/v/.Trash/1000', 'd/'), ('/w/.Trash/1000', 'd/')):
+        for td, pv in (('/h/.local/share/Trash', '/h/w/'), ('/v/.Trash/1000', 'd/'), ('/w/.Trash/1000', 'd/'), ('/v/.Trash/1001', 'd/'), ('/w/.Trash/1001', 'd/')):
             for j, nm in enumerate(('p', 'q', 'r')):
                 nodes += K.trashed(td, nm, pv + nm, '2019-01-0%dT00:00:00' % (j + 1), 'file' if j else 'dir', 2000 + 20 * j)
         m = W.build_model(W.W(mounts=['/', '/v', '/w'], cwd='/', nodes=nodes))
         e = scen.env()
         step = {'empty': C('empty', [], e, cwd='/'), 'empty-days': C('empty', ['1'], e, now='2020-06-01T00:00:00', cwd='/'),
-                'rm-star': C('rm', ['*'], e, cwd='/'), 'empty-f': C('empty', ['-f'], e, cwd='/', tty=True)}[PURGERS[cmd]]
+                'rm-star': C('rm', ['*'], e, cwd='/'), 'empty-f': C('empty', ['-f'], e, cwd='/', tty=True),
+                # (--all-users: the same $topdir/.Trash is the parent of one directory per user of the password database)
+                'empty-all-users': C('empty', ['--all-users'], e, cwd='/')}[PURGERS[cmd]]
         probe = m.clone()
         _, r0 = scen.run_model(None, [step], model=probe)
         n = r0[0]['ops']
-        if n >= 400:
-            return rt.fail('C08:bound-too-small', 'the run makes %d system calls; instants only range over 0..399' % n)
+        if n >= 600:
+            return rt.fail('C08:bound-too-small', 'the run makes %d system calls; instants only range over 0..599' % n)
         if k > n:
             rt.begin()
             return rt.ok()
@@ -437,38 +439,40 @@ def _stale(k, action, cmd):
             return len(op) > 1 and isinstance(op[1], str) and (op[1] == prefix or op[1].startswith(prefix + '/'))
         def absolute(op):
             return len(op) > 1 and isinstance(op[1], str) and op[1].startswith('/')
-        # the first use of anything INSIDE /w/.Trash/$uid after the change (relative names belong to an fd-based rmtree
-        # whose first and last step are spelled absolutely)
-        first_w = None
-        for i in range(k, len(log)):
-            if absolute(log[i]) and log[i][1].startswith('/w/.Trash/1000/'):
-                first_w = i
-                break
-        if first_w is None:
-            return rt.ok()
-        removed_there = [i for i in range(first_w, len(log)) if log[i][0] in destructive and under(log[i], '/w/.Trash/1000')]
-        if not removed_there:
-            return rt.ok()
-        seen = set(log[i][0] for i in range(k, first_w) if log[i][0] in ('stat', 'lstat') and absolute(log[i]) and log[i][1].rstrip('/') == '/w/.Trash')
         label = '%s:%s' % (PURGERS[cmd], ACTIONS[action])
-        if seen == {'stat', 'lstat'}:
-            return rt.fail('C08:insecure-dir-modified:examined-after-the-change:' + label,
-                           '/w/.Trash became insecure before system call %d, was examined completely after that, and %r followed at call %d' % (k, log[removed_there[0]][:2], removed_there[0]))
-        elsewhere = [i for i in range(k, first_w) if log[i][0] in destructive and absolute(log[i]) and not under(log[i], '/w/.Trash/1000')]
-        if elsewhere:
-            return rt.fail('C08:insecure-dir-modified:stale-verdict-carried-across-other-trash-dirs:' + label,
-                           '/w/.Trash became insecure before system call %d; the command then still removed %r (call %d) and later %r (call %d) without examining /w/.Trash again' % (
-                               k, log[elsewhere[0]][:2], elsewhere[0], log[removed_there[0]][:2], removed_there[0]))
+        # every $uid directory under /w/.Trash is a trash directory of its own (with --all-users several are purged)
+        for target in ('/w/.Trash/1000', '/w/.Trash/1001'):
+            # the first use of anything INSIDE it after the change (relative names belong to an fd-based rmtree whose
+            # first and last step are spelled absolutely)
+            first_w = None
+            for i in range(k, len(log)):
+                if absolute(log[i]) and log[i][1].startswith(target + '/'):
+                    first_w = i
+                    break
+            if first_w is None:
+                continue
+            removed_there = [i for i in range(first_w, len(log)) if log[i][0] in destructive and under(log[i], target)]
+            if not removed_there:
+                continue
+            seen = set(log[i][0] for i in range(k, first_w) if log[i][0] in ('stat', 'lstat') and absolute(log[i]) and log[i][1].rstrip('/') == '/w/.Trash')
+            if seen == {'stat', 'lstat'}:
+                return rt.fail('C08:insecure-dir-modified:examined-after-the-change:' + label,
+                               '/w/.Trash became insecure before system call %d, was examined completely after that, and %r followed at call %d' % (k, log[removed_there[0]][:2], removed_there[0]))
+            elsewhere = [i for i in range(k, first_w) if log[i][0] in destructive and absolute(log[i]) and not under(log[i], target)]
+            if elsewhere:
+                return rt.fail('C08:insecure-dir-modified:stale-verdict-carried-across-other-trash-dirs:' + label,
+                               '/w/.Trash became insecure before system call %d; the command then still removed %r (call %d) and later %r (call %d) without examining /w/.Trash again' % (
+                                   k, log[elsewhere[0]][:2], elsewhere[0], log[removed_there[0]][:2], removed_there[0]))
         return rt.ok()
 
 
 def w_stale(k: int, action: int, cmd: int) -> str:
     """
     pre: PARTITION is None or (action == PARTITION[0] and cmd == PARTITION[1])
-    pre: 0 <= k < 400 and 0 <= action < 2 and 0 <= cmd < 4
+    pre: 0 <= k < 600 and 0 <= action < 2 and 0 <= cmd < 5
     post: _ == ''
     """
-    return _stale(rt.sel(k, 400), rt.sel(action, 2), rt.sel(cmd, 4))
+    return _stale(rt.sel(k, 600), rt.sel(action, 2), rt.sel(cmd, 5))
 
 
 def w_midrun(k: int, action: int, interactive: bool) -> str:
@@ -505,9 +509,9 @@ def obligations(tier):
                   'either scanning order x 7 command/argument combinations'),
         CH('W_several_insecure_volumes_each_reported', MOD, 'w_twobad', timeout=300, engine='W', regime='selector', encodes=K.LIST_FUNCS, stubs=K.STUBS,
            bounds='2 or 3 volumes whose .Trash is insecure, 4 x 4 combinations of reasons: trash-list reads none of them and names each on stderr'),
-        CH('W_purge_does_not_carry_a_verdict_across_trash_dirs', MOD, 'w_stale', timeout=1200, partitions=[(a, c) for a in range(2) for c in range(4)], engine='W', regime='selector',
+        CH('W_purge_does_not_carry_a_verdict_across_trash_dirs', MOD, 'w_stale', timeout=1200, partitions=[(a, c) for a in range(2) for c in range(5)], engine='W', regime='selector',
            encodes=K.EMPTY_FUNCS + K.RM_FUNCS + ['TrashDirsScanner.scan_trash_dirs (lazy)', 'Guard.ask_the_user'], stubs=K.STUBS + ['another actor changes /w/.Trash before system call k'],
-           bounds='trash-empty / trash-empty 1 / trash-empty -f on a tty / trash-rm * over home, /v and /w (3 entries each); /w/.Trash turns insecure (sticky bit dropped | replaced by a symlink) before system call k, k in 0..399 (runs are shorter: checked)',
+           bounds='trash-empty / trash-empty 1 / trash-empty -f on a tty / trash-rm * / trash-empty --all-users (two users of a stubbed password database) over home, /v and /w (3 entries per trash directory, two $uid directories per .Trash); /w/.Trash turns insecure (sticky bit dropped | replaced by a symlink) before system call k, k in 0..599 (runs are shorter: checked)',
            outside='the check-then-use window within one volume (the change falls between the examination of /w/.Trash and the purge of /w with no other removal in between); trash-empty -i, which must list every trash directory before it can ask, so that its verdicts are as old as the question'),
         CH('W_put_rechecks_per_argument', MOD, 'w_midrun', timeout=900, partitions=[(a, i) for a in range(2) for i in (False, True)], engine='W', regime='selector', encodes=K.PUT_FUNCS, stubs=K.STUBS,
            bounds='trash-put a b c (with/without -i); .Trash turns insecure (sticky bit dropped | replaced by a symlink) before system call k, k in 0..199 '
